@@ -24,7 +24,7 @@ def run(res: C.Result):
     nprog = 80 if quick else 1500
     cases = []
     for k in range(nprog):
-        p = progs.gen_program(rng, k, ensembles=("canonical", "isobaric", "gc", "isotension", "hamiltonian", "gc", "canonical"))
+        p = progs.add_mid_run_edit(progs.gen_program(rng, k, ensembles=("canonical", "isobaric", "gc", "isotension", "hamiltonian", "gc", "canonical")))
         p["energy_probe"] = True
         p["criteria"] = "both"      # the real criteria is evaluated (it asks for the energy); the verdict is scripted
         p["calc"] = ["caching", "stateless", "internal", "lj"][k % 4]
@@ -62,6 +62,10 @@ def run(res: C.Result):
         g0 = r["trials"][0]["pre"]["geom12"] if r["trials"] else None
         t0 = tk(g0)       # the initial configuration's token is fixed before any re-pointing
         for ti, t in enumerate(r["trials"]):
+            if ti and r["trials"][ti - 1]["post"]["geom12"] != t["pre"]["geom12"]:
+                # between two runs of the driver the user changed the atoms: the model's `Edited` outcome (validate_simulation at the next run start)
+                os_.append(f"Edited {tk(t['pre']['geom12'])}")
+                dist["user_edits_between_runs"] = dist.get("user_edits_between_runs", 0) + 1
             dist["trials"] += 1
             oc = t["outcome"]
             dist["outcomes"]["accepted" if oc else "rejected" if oc is False else "failed"] += 1
